@@ -1,16 +1,16 @@
 SPECIFICATION Spec
 CONSTANTS
-  MaxB = 4
+  MaxB = 2
   NPs = {1}
-  MaxPost = 1
+  MaxPost = 0
   Reserve = TRUE
   Titles <- TitleClasses
   Stack = 64
   WorkList = FALSE
   DestSpellings = {"none"}
   FollowRefs = FALSE
-  IdLimits = {1000000}
-  CheckedIds = FALSE
+  IdLimits = {5, 7, 8, 9, 10, 20}
+  CheckedIds = TRUE
   Emit = TRUE
 INVARIANTS RefinesForest RefinesAdjust RefinesFresh RefinesLinks RefinesCarries RefinesToc Verdict NoAbort RefusedOk EmitInv
 PROPERTIES Reserved
